@@ -100,7 +100,7 @@ impl Check for C02 {
         "fault_enumeration"
     }
     fn rule(&self) -> String {
-        "for each attack configuration (n in {2,3}; corrupted evaluator or garbler with <= 4 input bits; circuits whose outputs are not affine in them) every message the corrupted party sends (per recipient) x every mutation class of the catalogue (byte-level, structure-aware on the decoded tree, duplicate, replace-by-earlier, drop, swap) is injected, one per simulated run; every site runs with the scripted adversary (never aborts, so unnoticed deviations play out to the output) and the structure-aware ones also with the live adversary (real code, adaptive). Oracle: each honest output party that returns Ok returns f(x_H, x') for one substitution x' common to all honest Ok results, found by exhaustive enumeration of the corrupted input; everything else must be Err. evaluations = attacked runs; distinct = (configuration, site, mutation, mode) with an effective fault".into()
+        "for each attack configuration (n in {2,3}; corrupted evaluator or garbler with <= 4 input bits; circuits whose outputs are not affine in them) every message the corrupted party sends (per recipient) x every mutation class of the catalogue (byte-level, structure-aware on the decoded tree, duplicate, replace-by-earlier, drop, swap) is injected, one per simulated run; every site runs with the scripted adversary (never aborts, so unnoticed deviations play out to the output) and the structure-aware ones also with the live adversary (real code, adaptive); plus all pairs of an input-phase bool flip with an output-phase bool flip towards one recipient, and a seeded swarm of runs with 2-4 random structure-aware edits (same message / same phase to all recipients / earlier and later message to one recipient). Oracle: each honest output party that returns Ok returns f(x_H, x') for one substitution x' common to all honest Ok results, found by exhaustive enumeration of the corrupted input; everything else must be Err. evaluations = attacked runs; distinct = (configuration, site, mutation, mode) with an effective fault".into()
     }
     fn assumptions(&self) -> Vec<String> {
         vec![
